@@ -23,10 +23,6 @@ variable {H : Type} [DecidableEq H]
 /-- the root row a store starts from (database/genesis.go) -/
 def IsRoot (g : Row H) : Prop := g.id = 0 ∧ g.st = .lc ∧ g.height = 0 ∧ g.hash ≠ g.prev
 
-/-- the submission does not hit the one known defect: a zero-work header extending the current tip -/
-def NotZeroOnTip (s : Store H) (x : Src H) : Prop :=
-  work x.bits = 0 → ∀ t, getTip s = some t → t.hash ≠ x.prev
-
 /-- hashes of submitted headers never equal the root's previous-hash (the all-zero hash): trusted property of SHA-256d -/
 def HashAvoids (cfg : Cfg H) (z : H) : Prop := ∀ x, cfg.hashOf x ≠ z
 
@@ -74,7 +70,8 @@ theorem exStore_eq : run exCfg [exRoot] exHist = exStore := by decide
 
 theorem exAvoids : HashAvoids exCfg exRoot.prev := fun x => Nat.succ_ne_zero x.nonce
 
-theorem exNotZero : NotZeroOnTip exStore exNext := fun h => absurd h (by decide)
+/-- a zero-work submission (bits = 0) on top of the current tip (hash 4) -/
+def exZero : Src Nat := { version := 1, prev := 4, merkle := 7, time := 7, bits := 0, nonce := 7 }
 
 /-! ### the invariant -/
 
@@ -96,14 +93,22 @@ theorem C01_inv_init (cfg : Cfg H) (g : Row H) (hg : IsRoot g) : Inv cfg [g] := 
 
 example : IsRoot exRoot := by decide
 
-/-- one step: the invariant is preserved by every submission except a zero-work extension of the tip -/
+/-- one step: the invariant is preserved by EVERY submission (also a zero-work one: it is compared with the tip
+    like a competing header, never exceeds it, and is stored STALE) -/
 theorem C01_inv_step (cfg : Cfg H) (s : Store H) (x : Src H) (g : Row H) (hg : g ∈ s) (hg0 : g.id = 0)
-    (hz : HashAvoids cfg g.prev) (h : Inv cfg s) (hx : NotZeroOnTip s x) : Inv cfg (add cfg s x).1 :=
-  h.add x hg hg0 hz hx
+    (hz : HashAvoids cfg g.prev) (h : Inv cfg s) : Inv cfg (add cfg s x).1 :=
+  h.add x hg hg0 hz
 
-example : exRoot ∈ exStore ∧ exRoot.id = 0 ∧ HashAvoids exCfg exRoot.prev ∧ Inv exCfg exStore ∧
-    NotZeroOnTip exStore exNext :=
-  ⟨by decide, by decide, exAvoids, by decide, exNotZero⟩
+example : exRoot ∈ exStore ∧ exRoot.id = 0 ∧ HashAvoids exCfg exRoot.prev ∧ Inv exCfg exStore :=
+  ⟨by decide, by decide, exAvoids, by decide⟩
+
+/-- the step on the formerly excluded input: a zero-work child of the tip is appended STALE, the tip stays -/
+example : work exZero.bits = 0 ∧ (getTip exStore).map (·.hash) = some exZero.prev ∧
+    (add exCfg exStore exZero).1 = exStore ++ [
+      { id := 6, hash := 8, prev := 4, merkle := 7, height := 3, version := 1, time := 7, bits := 0, nonce := 7,
+        work := 0, cum := 12885098499, st := .stale }] ∧
+    getTip (add exCfg exStore exZero).1 = getTip exStore ∧ Inv exCfg (add exCfg exStore exZero).1 := by
+  decide
 
 /-- structural well-formedness is preserved by EVERY submission (also the zero-work one) -/
 theorem C01_wf_step (cfg : Cfg H) (s : Store H) (x : Src H) (g : Row H) (hg : g ∈ s) (hg0 : g.id = 0)
@@ -119,18 +124,19 @@ theorem C01_inv_canon (cfg : Cfg H) (s : Store H) (h : Inv cfg s) : Canon s :=
 
 example : Inv exCfg exStore := by decide
 
-/-- FULL STATEMENT (false on the unchanged code, see C01_canonical_counterexample):
-      ∀ hist, Canon (run cfg [g] hist)
-    proved for histories in which every header has positive work: -/
-theorem C01_canonical_partial (cfg : Cfg H) (g : Row H) (hg : IsRoot g) (hz : HashAvoids cfg g.prev)
-    (hist : List (Src H)) (hpos : ∀ x ∈ hist, 0 < work x.bits) :
-    Inv cfg (run cfg [g] hist) ∧ Canon (run cfg [g] hist) := by
-  have h := (C01_inv_init cfg g hg).run hz hist (List.mem_singleton.2 rfl) hg.1 hpos
+/-- FULL STATEMENT: after ANY ingestion history (any tree shape, order, duplicates, forbidden hashes, orphans, any
+    bits — zero-work headers included) the store satisfies the invariant and is canonically labelled -/
+theorem C01_canonical (cfg : Cfg H) (g : Row H) (hg : IsRoot g) (hz : HashAvoids cfg g.prev)
+    (hist : List (Src H)) : Inv cfg (run cfg [g] hist) ∧ Canon (run cfg [g] hist) := by
+  have h := (C01_inv_init cfg g hg).run hz hist (List.mem_singleton.2 rfl) hg.1
   exact ⟨h, canon_of_inv h⟩
 
-example : IsRoot exRoot ∧ HashAvoids exCfg exRoot.prev ∧ (∀ x ∈ exHist, 0 < work x.bits) ∧
-    run exCfg [exRoot] exHist = exStore :=
-  ⟨by decide, exAvoids, by decide, exStore_eq⟩
+example : IsRoot exRoot ∧ HashAvoids exCfg exRoot.prev ∧ run exCfg [exRoot] exHist = exStore :=
+  ⟨by decide, exAvoids, exStore_eq⟩
+
+/-- a history containing a zero-work header on the tip is covered as well -/
+example : (∃ x ∈ exHist ++ [exZero], work x.bits = 0) ∧ Canon (run exCfg [exRoot] (exHist ++ [exZero])) := by
+  decide
 
 /-- every other connected header is STALE -/
 theorem C01_stale_or_lc (r : Row H) (h : connected r) : r.st = .lc ∨ r.st = .stale :=
@@ -191,20 +197,40 @@ example : exRoot ∈ exStore ∧ exRoot.id = 0 ∧ HashAvoids exCfg exRoot.prev 
     exOrphan ∈ exStore ∧ exOrphan.st = .orphan :=
   ⟨by decide, by decide, exAvoids, by decide, by decide, by decide⟩
 
-/-- the full statement fails on the unchanged code: a zero-work child of the tip becomes the tip although the old tip
-    has the same cumulative work and was stored earlier (known finding K-C01-zero-work). Concrete witness over H := Nat. -/
+/-- a header that adds no work never gets onto the longest chain (the repaired defect, for every store satisfying the
+    invariant): a new, non-forbidden zero-work header is appended STALE or ORPHAN and no old row is relabelled -/
+theorem C01_zero_work_never_lc (cfg : Cfg H) (s : Store H) (x : Src H) (h : Inv cfg s) (hwk : work x.bits = 0)
+    (hn : (byHash s (cfg.hashOf x)).isNone) (hf : cfg.hashOf x ∉ cfg.forbidden) :
+    ∃ r, add cfg s x = (s ++ [r], .stored r) ∧ r.hash = cfg.hashOf x ∧ r.work = 0 ∧ r.st ≠ .lc := by
+  have hd : ¬ (byHash s (cfg.hashOf x)).isSome = true := by
+    cases e : byHash s (cfg.hashOf x) with
+    | none => simp
+    | some r => rw [e] at hn; cases hn
+  exact h.add_zero_work x hwk hd hf
+
+example : Inv exCfg exStore ∧ work exZero.bits = 0 ∧ (byHash exStore (exCfg.hashOf exZero)).isNone ∧
+    exCfg.hashOf exZero ∉ exCfg.forbidden := by
+  decide
+
+/-- regression for the repaired defect (former known finding K-C01-zero-work: a zero-work child of the tip took over
+    a tie although the old tip has the same cumulative work and was stored earlier). Concrete witness over H := Nat. -/
 def cexCfg : Cfg Nat := { hashOf := fun x => x.nonce, forbidden := [] }
 def cexRoot : Row Nat :=
   { id := 0, hash := 1000, prev := 0, merkle := 0, height := 0, version := 1, time := 0, bits := 486604799, nonce := 1000,
     work := 4295032833, cum := 4295032833, st := .lc }
 def cexHist : List (Src Nat) := [{ version := 1, prev := 1000, merkle := 1, time := 1, bits := 0, nonce := 7 }]
 
-/-- closed form (as the statement file prescribes): `HashAvoids cexCfg 0` cannot hold for the toy hash — nonce 0
-    would collide — so that hypothesis is dropped and `IsRoot cexRoot` is stated as a fact -/
-theorem C01_canonical_counterexample : IsRoot cexRoot ∧ ¬ Canon (run cexCfg [cexRoot] cexHist) := by
+/-- on the former counterexample the labelling is canonical: the zero-work child of the tip is stored STALE and the
+    old tip stays the tip. (Closed form: `HashAvoids cexCfg 0` cannot hold for the toy hash — nonce 0 would collide —
+    so `IsRoot cexRoot` is stated as a fact and `Canon` is decided directly.) -/
+theorem C01_zero_work_stays_stale : IsRoot cexRoot ∧ Canon (run cexCfg [cexRoot] cexHist) ∧
+    run cexCfg [cexRoot] cexHist = [cexRoot,
+      { id := 1, hash := 7, prev := 1000, merkle := 1, height := 1, version := 1, time := 1, bits := 0, nonce := 7,
+        work := 0, cum := 4295032833, st := .stale }] ∧
+    getTip (run cexCfg [cexRoot] cexHist) = some cexRoot := by
   decide
 
-/-- the witness is structurally well-formed: only the labelling clause fails -/
-example : WF cexCfg (run cexCfg [cexRoot] cexHist) ∧ ¬ LcInv (run cexCfg [cexRoot] cexHist) := by decide
+/-- the witness satisfies the whole invariant -/
+example : Inv cexCfg (run cexCfg [cexRoot] cexHist) := by decide
 
 end BHS.Props.C01
